@@ -599,6 +599,13 @@ pub fn corpus(it: &mut Interp) -> Result<Vec<Seed>, Failure> {
             file.extend_from_slice(c.bytes().as_ref());
         }
         v.push(Seed { name: "compressed_changes", bytes: file, target: T_LOAD, text: false });
+        // a bundle over the same history: its value column exceeds the 256-byte threshold, so the bundle takes the
+        // decoder path for compressed columns (the string columns stay uncompressed and reachable by the mutators)
+        let all: Vec<ChangeHash> = d.get_changes(&[]).iter().map(|c| c.hash()).collect();
+        if let Ok(b) = d.bundle(all.iter().copied()) {
+            v.push(Seed { name: "bundle(compressed column)", bytes: b.bytes().to_vec(), target: T_BUNDLE, text: false });
+            v.push(Seed { name: "bundle(compressed column)_as_document", bytes: b.bytes().to_vec(), target: T_LOAD, text: false });
+        }
     }
     if let Some(c) = changes.last() {
         v.push(Seed { name: "one_change", bytes: c.raw_bytes().to_vec(), target: T_CHANGE_B, text: false });
@@ -688,7 +695,7 @@ fn text_mut(bytes: &[u8], muts: &[Mut]) -> Vec<u8> {
 
 type FuzzCase = (Program, u16, Vec<Mut>, u8, Vec<u8>);
 
-const CPU_BUDGET_US: u64 = 10_000_000;
+const CPU_BUDGET_US: u64 = 2_000_000;
 /// BatchApply::apply is infallible by design and does not validate a change against the document first, so a
 /// well-formed change which is inconsistent with the document (an op on an unknown object, a predecessor which
 /// does not exist, ...) panics at whichever internal check it trips first: one root cause, keyed on the call site
@@ -726,12 +733,12 @@ fn c16_sig(sig: &str, region: &str) -> String {
 const RESCUE_SIG: &str = "C15:Automerge::rescue:hydrating-an-accepted-malformed-document";
 
 fn mem_budget(n: usize) -> u64 {
-    (64 << 20) + (64 << 10) * n as u64
+    (16 << 20) + (64 << 10) * n as u64
 }
 
 fn resource_check(prop: &str, o: &WOut, n: usize, tname: &str) -> CaseResult {
     ensure!(o.cpu_us <= CPU_BUDGET_US, format!("{prop}:cpu:{tname}"), "{tname} on {n} bytes used {} ms of CPU (budget {} ms)", o.cpu_us / 1000, CPU_BUDGET_US / 1000);
-    ensure!(o.peak <= mem_budget(n), format!("{prop}:memory:{tname}"), "{tname} on {n} bytes allocated a peak of {} bytes (budget 64 MiB + 64 KiB per input byte = {}); biggest single request {}", o.peak, mem_budget(n), o.biggest);
+    ensure!(o.peak <= mem_budget(n), format!("{prop}:memory:{tname}"), "{tname} on {n} bytes allocated a peak of {} bytes (budget 16 MiB + 64 KiB per input byte = {}); biggest single request {}", o.peak, mem_budget(n), o.biggest);
     Ok(())
 }
 
